@@ -227,3 +227,18 @@ Example C04_audit_nonvacuous :
   (* arbitrary: two digits + a high zero digit, Minus sign byte *)
   fst (arb_bigint ([0; 1; 7;0;0;0;0;0;0;0; 1; 9;0;0;0;0;0;0;0; 1; 0;0;0;0;0;0;0;0])) = mkint Minus [7; 9].
 Proof. split; vm_compute; reflexivity. Qed.
+
+(** two extended histories (any of the old or new constructors, any operations): equal integers are
+    the SAME object, so `==`, cmp, the hashed word stream and every export coincide
+    (C04_ueq_iff / C04_cmp / C04_hash_fun / C04_export_fun apply to them verbatim) *)
+Theorem C04_xindistinguishable : forall ca opsa cb opsb a b,
+  xctor_wf ca -> Forall xop_wf opsa -> xctor_wf cb -> Forall xop_wf opsb ->
+  xhistory P ca opsa = Ret a -> xhistory P cb opsb = Ret b ->
+  okind a = okind b -> oval a = oval b ->
+  a = b /\ ocanon a.
+Proof.
+  intros ca opsa cb opsb a b Wa Oa Wb Ob Ea Eb K V. split.
+  - exact (xindistinguishable ca opsa cb opsb a b Wa Oa Wb Ob Ea Eb K V).
+  - exact (xhistory_canon ca opsa a Wa Oa Ea).
+Qed.
+Print Assumptions C04_xindistinguishable.
